@@ -421,6 +421,9 @@ func (g *e2eGen) step() {
 			if g.rnd.Chance(1, 2) && path.Dir(dir) != "." {
 				dir = path.Dir(dir)
 			}
+			if top, _, _ := strings.Cut(dir, "/"); g.rnd.Chance(1, 5) && top != "var" && top != "lib" && top != "etc" {
+				dir = top // a whiteout at the root of the layer
+			}
 			b.rm(dir)
 			g.dropLangUnder(dir)
 			g.op("rm -rf %s", dir)
